@@ -78,7 +78,7 @@ class ValueOracle(docexp.Oracle):
         m = tree.resolve(root, tuple(op[1]))
         if m is None or isinstance(m, M.RawTokenModel):
             return None
-        return {'m': m, 'before': read_all(m)}
+        return {'m': m, 'before': read_all(m), 'glue': tree.glued_pairs(root.token_store)}
 
     def post(self, root, op, ap, pre, res, case):
         if pre is None or ap.exc is not None:
@@ -111,6 +111,9 @@ class ValueOracle(docexp.Oracle):
         # survives print and re-parse
         text = tree.pr(root)
         again = docs.try_parse(text, M.File, True)
+        if tree.newly_glued(pre['glue'], root.token_store):
+            res.counters['skipped re-parse: known C06 finding (removal leaves two surviving tokens touching)'] += 1
+            return
         if again is None:
             if attr in ('indent', 'indent_by'):
                 return
